@@ -415,10 +415,22 @@ class CurveMachine:
             new = self.arr(spec)
             before = (cv.GetImage(), cv.GetDomain())
             n_img, n_dom = len(before[0]), len(before[1])
-            ok_expected = len(new) == (n_dom if what.endswith("image") else n_img)
+            is_image = what.endswith("image") or what == "set_values"
+            ok_expected = len(new) == (n_dom if is_image else n_img)
             ctx.ev()
             try:
-                if what == "set_image":
+                if what == "read":
+                    # read-only operations never touch the lengths
+                    n0 = len(cv.GetImage())
+                    repr(cv)
+                    if n0:
+                        cv[0], cv[-1], cv[0:n0]
+                    if len(cv.GetImage()) != n_img or len(cv.GetDomain()) != n_dom or cv.GetValues() is not before[0]:
+                        self.fail("curve_changed_by_read", "reading the curve changed it")
+                    continue
+                if what == "set_values":
+                    cv.SetValues(new)  # deprecated spelling of SetImage
+                elif what == "set_image":
                     cv.SetImage(new)
                 elif what == "set_domain":
                     cv.SetDomain(new)
@@ -436,8 +448,8 @@ class CurveMachine:
             else:
                 if not ok_expected:
                     self.fail("curve_accepts_different_lengths:%s" % what, "%s(%r) accepted: image has %d, domain %d elements" % (what, new, len(cv.GetImage()), len(cv.GetDomain())))
-                if (cv.GetImage() if what.endswith("image") else cv.GetDomain()) is not new:
-                    self.fail("curve_setter_did_not_store:%s" % what, "%s(%r) accepted but the curve holds %r" % (what, new, cv.GetImage() if what.endswith("image") else cv.GetDomain()))
+                if (cv.GetImage() if is_image else cv.GetDomain()) is not new:
+                    self.fail("curve_setter_did_not_store:%s" % what, "%s(%r) accepted but the curve holds %r" % (what, new, cv.GetImage() if is_image else cv.GetDomain()))
                 ctx.cls("curve_call_accepted")
                 if "rejected" in self.flags:
                     self.flags.add("accepted_after_rejection")
@@ -484,7 +496,7 @@ def fa_ops():
 def curve_case():
     vals = st.lists(st.sampled_from([1.0, 2.0, 0.5, -3.0, 10.0]), min_size=0, max_size=5)
     arr = st.tuples(st.sampled_from(KINDS), vals, st.integers(0, 10), st.booleans(), st.sampled_from([False, False, False, True]))
-    op = st.tuples(st.sampled_from(["set_image", "set_domain", "prop_image", "prop_domain"]), arr)
+    op = st.tuples(st.sampled_from(["set_image", "set_domain", "prop_image", "prop_domain", "set_image", "set_domain", "set_values", "read"]), arr)
     return st.tuples(st.tuples(arr, arr), st.lists(op, min_size=1, max_size=10))
 
 
